@@ -88,6 +88,14 @@ def gen_cases(ctx, count):
             cases.append({"space": space, "kind": kind, "n": n, "ns": ns, "state": state, "cls": cls, "mode": m, "option": o,
                           "seed": seed, "policy": rng.choice(["on_t_sample", "on_iteration"]),
                           "twice": rng.random() < 0.25 or seed == 0})
+        if rng.random() < 0.5:
+            # a script in another unit system (time and quantity): the engine must still see MOLECULES
+            # (the deterministic engine works in the script's own quantity unit, so its Poisson / redist processing acts on
+            #  amounts in that unit — a unit dependence that belongs to C04; here it gets the identity modes only)
+            m, o = rng.choice([(mm, oo) for mm in MODES for oo in OPTIONS if oo != "euler" or mm in ("none", "auto")])
+            cases.append({"space": space, "kind": kind, "n": n, "ns": ns, "state": state, "cls": cls, "mode": m, "option": o,
+                          "seed": seed, "policy": "on_t_sample", "twice": False,
+                          "units": {"time": rng.choice(["s", "ms", "min"]), "quantity": rng.choice(["nmol", "fmol", "mol"])}})
         if rng.random() < 0.3:
             # the script's own default (keyword omitted): must behave like "auto"
             cases.append({"space": space, "kind": kind, "n": n, "ns": ns, "state": state, "cls": cls, "mode": None,
@@ -95,6 +103,26 @@ def gen_cases(ctx, count):
         if rng.random() < 0.15:
             cases.append({"space": space, "kind": kind, "n": n, "ns": ns, "state": state, "cls": cls, "mode": rng.choice(BAD_MODES),
                           "option": rng.choice(OPTIONS), "seed": seed, "policy": "on_t_sample", "twice": False})
+    # process history: a redistribution with an ODD number of entries above the Poisson/normal switch, then the same
+    # script and seed again (two independent simulate() calls in one process must agree)
+    for q in range(ctx.n(6, 40)):
+        n = rng.choice([1, 3, 5])
+        space = {"type": "grid", "w": n, "h": 1, "d": 1, "cell_volume": 1.0, "cell_env": [0] * n,
+                 "boundary_conditions": {"x": "reflecting", "y": "reflecting", "z": "reflecting"}}
+        state = [float(rng.choice([100, 150, 400, 1000]) + rng.randint(0, 7) / 8) for _ in range(n)]
+        if n > 1 and rng.random() < 0.5:
+            state += [float(rng.randint(0, 5)) for _ in range(n)]
+        cases.append({"space": space, "kind": "grid", "n": n, "ns": len(state) // n, "state": state, "cls": "odd-large",
+                      "mode": rng.choice(["auto", "redist"]), "option": rng.choice(["gillespie", "tauleap"]),
+                      "seed": rng.randint(0, 2 ** 31 - 1), "policy": "on_t_sample", "twice": True})
+    # one large low-count state per seed: thousands of entries of 10..25 molecules (rare events of the per-entry draw)
+    for sd in ([1, 2, 4, 7] if ctx.tier == "quick" else list(range(24))):
+        n = 1500
+        space = {"type": "grid", "w": n, "h": 1, "d": 1, "cell_volume": 1.0, "cell_env": [0] * n,
+                 "boundary_conditions": {"x": "reflecting", "y": "reflecting", "z": "reflecting"}}
+        state = [float(10 + ((i * 7 + s * 3) % 5)) for s in range(2) for i in range(n)]
+        cases.append({"space": space, "kind": "grid", "n": n, "ns": 2, "state": state, "cls": "bulk-lowcount", "mode": "auto",
+                      "option": "gillespie", "seed": sd, "policy": "on_t_sample", "twice": False, "nomodel": True})
     return cases
 
 
@@ -113,6 +141,8 @@ def child_case(case, lib):
     sent = [float(v) for v in system.state.value]
     def mk_script():
         kw = {} if case["mode"] is None else {"init_state_processing": case["mode"]}
+        if case.get("units"):
+            kw["units_system"] = st.UnitsSystem(**case["units"])
         return st.RDScript(system, t_sample=[0], time_step=1 / 64, t_max=1 / 64, sampling_policy=case["policy"],
                            rng_seed=case["seed"], **kw)
     try:
@@ -130,7 +160,16 @@ def child_case(case, lib):
         draws = common.draws_get(lib)
         traj = eng.get_output()
         eng.finalize()
-        data = np.asarray(traj.data.value, dtype=float)
+        tdata = traj.data
+        if case.get("units") and case["units"].get("quantity", "molecule") != "molecule":
+            usm = script.units_system.copy()
+            usm.quantity = "molecule"
+            tdata = tdata.convert(usm)
+        data = np.asarray(tdata.value, dtype=float)
+        if case.get("units"):
+            # back from the script's quantity unit: one rounding, removed by snapping to the nearest integer
+            r = np.round(data)
+            data = np.where(np.abs(data - r) <= 1e-6 * np.maximum(1.0, np.abs(data)), r, data)
         size = ns * case["n"]
         runs.append({"nsamples": int(traj.nsamples()), "x0": [float(v) for v in data[:size]],
                      "t0": float(traj.t.value[0]) if traj.nsamples() else None,
@@ -181,7 +220,11 @@ def oracle(case, res):
     if "again" in res and res["again"] != y:
         fails.append(("not-reproducible:%s" % em, "two runs with the same seed give different t = 0 states"))
     if em == "none":
-        if [frac(v) for v in y] != x:
+        if case.get("units"):
+            same = all(common.close(v, q, rel=1e-9) for v, q in zip(y, x))
+        else:
+            same = [frac(v) for v in y] == x
+        if not same:
             fails.append(("none-changes-state", "'none' processing changed the state"))
         return fails, False
     yf = [frac(v) for v in y]
@@ -264,7 +307,7 @@ def compare_model(ctx, case, res, ans):
     """correspondence: model answer vs the real engine"""
     if ans is None:
         return
-    small = {k: case[k] for k in ("space", "ns", "state", "mode", "option", "seed", "policy")}
+    small = {k: case[k] for k in ("space", "ns", "state", "mode", "option", "seed", "policy", "units") if k in case}
     if "raised" in res:
         if "error" not in ans:
             ctx.disagree("init_state", small, res, ans, note="code raises, model accepts the mode")
@@ -281,7 +324,11 @@ def compare_model(ctx, case, res, ans):
                      note="the model needs more (or other) draws than the engine consumed")
         return
     mx = [rparse(v) for v in o["x"]]
-    if mx != [frac(v) for v in res["x0"]]:
+    if case.get("units") and effective_mode(case["mode"], case["option"]) == "none":
+        differs = not all(common.close(v, q, rel=1e-9) for v, q in zip(res["x0"], mx))
+    else:
+        differs = mx != [frac(v) for v in res["x0"]]
+    if differs:
         ctx.disagree("init_state", small, res["x0"], o["x"], note="sample 0 differs")
         return
     if o["used"] != len(res["draws"]):
@@ -298,7 +345,7 @@ def compare_model(ctx, case, res, ans):
 
 
 def run(ctx):
-    count = ctx.n(250, 4000)
+    count = ctx.n(170, 4000)
     cases = gen_cases(ctx, count)
     chunk = 400
     n_amb = 0
@@ -329,7 +376,9 @@ def run(ctx):
                 ctx.count("correction_loop_cases")
                 ctx.count("correction_loop_uniforms", sum(1 for d in res["draws"] if d[0] == "unif"))
             fails, amb = oracle(case, res)
-            small = {k2: case[k2] for k2 in ("space", "kind", "n", "ns", "state", "mode", "option", "seed", "policy", "twice")}
+            small = {k2: case[k2] for k2 in ("space", "kind", "n", "ns", "state", "mode", "option", "seed", "policy", "twice", "units") if k2 in case}
+            if case.get("units"):
+                ctx.count("units_quantity_" + case["units"]["quantity"])
             for key, what in fails:
                 ctx.violation(key, what, small, impl={k2: res.get(k2) for k2 in ("x0", "hang", "crash", "exception", "raised") if k2 in res},
                               expected="C14 predicate")
@@ -342,7 +391,7 @@ def run(ctx):
             if "x0" in res and not draw_margin_ok(case, res):
                 ctx.count("ambiguous_uniform")
                 continue
-            if amb:
+            if amb or case.get("nomodel"):
                 continue
             ops.append(model_op(case, res) if "raised" not in res else
                        {"op": "init_state", "mode": "auto" if case["mode"] is None else case["mode"], "option": case["option"], "n": case["n"], "ns": case["ns"],
